@@ -304,7 +304,7 @@ Proof.
       replace (Z.max (0 - p_left (o_pad o)) 0) with 0 in * by lia.
       change (0 <? 0) with false. cbv iota.
       replace (cw (o_woff o) + cw (o_oshape o) - cw (o_woff o)) with (cw (o_oshape o)) by lia.
-      rewrite (Z.max_l _ 1) in TW by lia.
+      rewrite (Z.max_l _ 1) in TW by lia. fold W.
       destruct (Z.ltb_spec (Z.min (cw (o_oshape o) * o_sx o + (needed_total_padding W (o_sx o) (o_dx o * (o_kw o - 1) + 1) - p_left (o_pad o))) W) W) as [Hlt|Hge].
       * (* the box stops short of the IFM width: no right padding is needed, and the original one is 0 *)
         assert (p_right (o_pad o) = 0) by (rewrite Wbot; nia).
@@ -324,7 +324,7 @@ Proof.
       replace (Z.max (0 - p_left (o_pad o)) 0) with 0 in * by lia.
       change (0 <? 0) with false. cbv iota.
       replace (cw (o_woff o) + cw (o_oshape o) - cw (o_woff o)) with (cw (o_oshape o)) by lia.
-      rewrite (Z.max_l _ 1) in TW by lia.
+      rewrite (Z.max_l _ 1) in TW by lia. fold W.
       destruct (Z.ltb_spec (Z.min (cw (o_oshape o) * o_sx o + (needed_total_padding W (o_sx o) (o_dx o * (o_kw o - 1) + 1) - p_left (o_pad o))) W) W) as [Hlt|Hge].
       * assert (p_right (o_pad o) = 0) by (rewrite Wbot; nia).
         replace (p_right (o_pad o)) with 0 in TW by lia. exact TW.
